@@ -3,6 +3,7 @@ package harness
 // C16 Block and transaction wrappers always agree with the wire message they wrap.
 
 import (
+	"bufio"
 	"bytes"
 	"fmt"
 	"io"
@@ -26,6 +27,31 @@ type c16TxSpec struct {
 type c16Op struct {
 	Op string `json:"op"` // tx transactions txhash hash bytes txloc setheight height
 	I  int    `json:"i"`
+}
+
+// c16Reader wraps src in one of four reader types (a reader with nothing but Read; *bytes.Buffer over src
+// itself; *bytes.Reader; a small bufio.Reader).  after() is what the owner of the stream does next: the
+// storage is overwritten and a Buffer is reset and refilled.
+func c16Reader(src []byte, sel int) (io.Reader, func()) {
+	scribble := func() {
+		for i := range src {
+			src[i] ^= 0x5a
+		}
+	}
+	switch ((sel % 4) + 4) % 4 {
+	case 1:
+		buf := bytes.NewBuffer(src)
+		return buf, func() {
+			buf.Reset()
+			buf.Write(bytes.Repeat([]byte{0xc3}, len(src)))
+			scribble()
+		}
+	case 2:
+		return bytes.NewReader(src), scribble
+	case 3:
+		return bufio.NewReaderSize(bytes.NewReader(src), 16), scribble
+	}
+	return plainReader{bytes.NewReader(src)}, scribble
 }
 
 type c16Case struct {
@@ -136,7 +162,8 @@ func evalC16(c c16Case, o *Obs) error {
 		}
 	case 2:
 		// a plain reader (no ReadByte, no Peek) that carries this block twice, back to back
-		pr := plainReader{bytes.NewReader(append(append([]byte{}, raw...), raw...))}
+		src := append(append([]byte{}, raw...), raw...)
+		pr, after := c16Reader(src, len(c.Ops))
 		if b, err = bchutil.NewBlockFromReader(pr); err != nil {
 			return fmt.Errorf("NewBlockFromReader of a valid block failed: %v", err)
 		}
@@ -147,6 +174,7 @@ func evalC16(c c16Case, o *Obs) error {
 		if got, _ := b2.Bytes(); !bytes.Equal(got, raw) {
 			return fmt.Errorf("the second block read from the same stream differs from the first")
 		}
+		after()
 	case 3:
 		b = bchutil.NewBlockFromBlockAndBytes(msg, append([]byte{}, raw...))
 	default:
@@ -461,7 +489,8 @@ func evalC16Tx(c c16TxCase, o *Obs) error {
 			return fmt.Errorf("NewTxFromBytes of a valid transaction (+%d trailing bytes) failed: %v", len(c.Trail), err)
 		}
 	default:
-		pr := plainReader{bytes.NewReader(append(append(append([]byte{}, raw...), raw...), c.Trail...))}
+		src := append(append(append([]byte{}, raw...), raw...), c.Trail...)
+		pr, after := c16Reader(src, len(c.Ops))
 		if t, err = bchutil.NewTxFromReader(pr); err != nil {
 			return fmt.Errorf("NewTxFromReader of a valid transaction failed: %v", err)
 		}
@@ -469,6 +498,7 @@ func evalC16Tx(c c16TxCase, o *Obs) error {
 		if err != nil || *t2.Hash() != m.TxHash() {
 			return fmt.Errorf("a second NewTxFromReader on the same stream (two transactions back to back) fails or reads another transaction: %v", err)
 		}
+		after()
 	}
 	if len(c.Trail) > 0 && c.Ctor != 0 {
 		o.Class("C16:tx-input-with-trailing-bytes")
